@@ -150,6 +150,9 @@ func checkConfig[H Hash](cfg *Config[H]) error {
 	if cfg.Timer == nil {
 		return errors.New("Timer is nil")
 	}
+	if cfg.TimestampIncrement == 0 {
+		return errors.New("TimestampIncrement is zero")
+	}
 	if cfg.CurrentHeight == nil {
 		return errors.New("CurrentHeight is nil")
 	}
